@@ -15,7 +15,7 @@
 From stdpp Require Import gmap strings sorting.
 Require Import Grits.Base Grits.Forms Grits.Expand Grits.TcTop Grits.Runtime.
 Require Import Grits.RuntimeFootprint Grits.proofs.RuntimeFacts Grits.proofs.Diamond Grits.proofs.Determinism Grits.proofs.AsyncSync Grits.proofs.RuntimeCheckFacts Grits.proofs.ForkJoin Grits.proofs.DeterminismExamples.
-Require Import Grits.Tc Grits.spec.RtTyping Grits.spec.Topo Grits.proofs.RtSafety Grits.proofs.RtInit Grits.proofs.RtTheorems Grits.proofs.DeterminismTyped Grits.proofs.TopoLin Grits.proofs.TopoStep Grits.proofs.TopoReach.
+Require Import Grits.Tc Grits.spec.RtTyping Grits.spec.Topo Grits.proofs.RtSafety Grits.proofs.RtInit Grits.proofs.RtTheorems Grits.proofs.DeterminismTyped Grits.proofs.TopoLin Grits.proofs.TopoStep Grits.proofs.TopoReach Grits.proofs.InitLinear.
 
 Theorem C03_step_is_move : forall md D F c ch, step md D F c ch = sres_of c (move_of md D F c ch).
 Proof. exact step_move. Qed.
@@ -262,6 +262,16 @@ Theorem C03_async_sync_agree_typed_core : forall (teqD : STypes.tenv -> STypes.s
                  labels t2 ≡ₚ labels t1.
 Proof. exact async_sync_agree_typed_core. Qed.
 
+(* init_linear is decidable: the boolean check is sound, and accepted programs with channel
+   passing, cuts and calls pass it (a program with split does not: outside the core fragment) *)
+Theorem C03_init_linear_b_sound : forall p', init_linear_b p' = true -> init_linear p'.
+Proof. exact init_linear_b_sound. Qed.
+
+Example C03_init_linear_examples :
+  init_linear_text example_text = Some true /\ init_linear_text demo_pass_text = Some true /\
+  init_linear_text example_split_text = Some false.
+Proof. exact (conj example_init_linear (conj demo_init_linear split_not_core)). Qed.
+
 (* UNCONDITIONAL, for a syntactic class (fork-join configurations: close self / wait / new with a
    closed child / print / parameterless calls, one provider per process; `FJ c` is a structural
    property of the configuration, decided by `fj_cfg_b`): no invariant hypothesis is left. *)
@@ -355,6 +365,8 @@ Print Assumptions C03_topo_step_core.
 Print Assumptions C03_topo_reachable_core.
 Print Assumptions C03_determinism_typed_core.
 Print Assumptions C03_async_sync_agree_typed_core.
+Print Assumptions C03_init_linear_b_sound.
+Print Assumptions C03_init_linear_examples.
 Print Assumptions C03_forkjoin_invariant.
 Print Assumptions C03_forkjoin_determinism.
 Print Assumptions C03_forkjoin_error_excludes_completion.
